@@ -31,12 +31,12 @@ type E struct {
 	Conds []string
 }
 
-func Const(n int64) *E        { return &E{K: KConst, N: n} }
-func Atom(name string) *E     { return &E{K: KAtom, Name: name} }
+func Const(n int64) *E           { return &E{K: KConst, N: n} }
+func Atom(name string) *E        { return &E{K: KAtom, Name: name} }
 func Fn(name string, a ...*E) *E { return &E{K: KFn, Name: name, Args: a} }
-func Sum(t ...*E) *E          { return &E{K: KSum, Args: t} }
-func Mul(k int64, x *E) *E    { return &E{K: KMul, N: k, Args: []*E{x}} }
-func Prod(x, y *E) *E         { return &E{K: KProd, Args: []*E{x, y}} }
+func Sum(t ...*E) *E             { return &E{K: KSum, Args: t} }
+func Mul(k int64, x *E) *E       { return &E{K: KMul, N: k, Args: []*E{x}} }
+func Prod(x, y *E) *E            { return &E{K: KProd, Args: []*E{x, y}} }
 func Big(v string, coll, body *E) *E {
 	return &E{K: KBig, Name: v, Args: []*E{coll, body}}
 }
